@@ -483,7 +483,7 @@ def minimise(ctx, text, known_ids, budget=40):
             return False
         return bool(st["bad"])
 
-    lines = text.splitlines()
+    lines = [l for l in text.splitlines() if not l.startswith("view ")]   # re-derived by `c14driver elab`
     tries = 0
     changed = True
     while changed and tries < budget:
